@@ -68,10 +68,12 @@ func convertToUuidBytes(source interface{}) (val []byte, err error) {
 			val = s.Bytes()
 		}
 	case []byte:
-		if len(s) != primitive.LengthOfUuid {
-			err = errWrongFixedLength(primitive.LengthOfUuid, len(s))
-		} else {
-			val = s
+		if s != nil {
+			if len(s) != primitive.LengthOfUuid {
+				err = errWrongFixedLength(primitive.LengthOfUuid, len(s))
+			} else {
+				val = s
+			}
 		}
 	case *[]byte:
 		if s != nil {
